@@ -6,7 +6,10 @@
 (* kind = "term": a random term was built (or refused) by the real         *)
 (*   constructors, its required_keys / output_keys were read, and it was   *)
 (*   applied to dictionaries (kind E/G/J over the logged key set); logged: *)
-(*   outcome, exception class, type and content of the result.             *)
+(*   outcome, exception class, type and content of the result, and the     *)
+(*   presentation (list / tuple / set / dict view / iterator / generator)  *)
+(*   of every key collection handed to a constructor: the verdict does not *)
+(*   depend on it.                                                         *)
 (* kind = "dict": a dictionary of some class was created (or refused) and  *)
 (*   mutations were attempted; logged: acceptance, and per mutation        *)
 (*   whether it was rejected and left the content unchanged.               *)
@@ -48,9 +51,16 @@ AppClause(T, a) ==
                                   ELSE IF a.nonint \/ MapOf(a.m) # r.d.m THEN "result_values"
                                   ELSE "none"
 
+\* the logged presentations (form of every key collection / member list handed to a constructor) must
+\* be forms the specification admits for that argument; the verdict itself never looks at them
+PresOk == \A i \in DOMAIN E.pres :
+             \E j \in DOMAIN FormTable : /\ FormTable[j].op = E.pres[i][1] /\ FormTable[j].arg = E.pres[i][2]
+                                         /\ E.pres[i][3] \in FormTable[j].forms
+
 TermClause ==
     LET T == TermOf(E.term) IN
-    IF E.built # Constructible(T)
+    IF ~PresOk THEN "malformed_presentation_in_log"
+    ELSE IF E.built # Constructible(T)
     THEN (IF E.built THEN "ill_formed_term_was_built" ELSE "well_formed_term_refused")
     ELSE IF ~E.built THEN "none"
     ELSE IF Range(E.req) # Req(T) THEN "required_keys"
